@@ -74,6 +74,12 @@ def scenarios(rng, quick):
     kinds = list(BAD_MODELS)
     for k in (rng.sample(kinds, 4) if quick else kinds):
         yield "main:" + k, (lambda d, cfg, k=k: write_pkg(d + "/main", "Main", BASE + BAD_MODELS[k], cfg))
+    for k in (["unknown-type", "duplicate-field", "computed-field-type"] if quick else kinds):
+        yield "main-2nd-document:" + k, (lambda d, cfg, k=k: write_pkg(d + "/main", "Main", BASE + "---\n" + BAD_MODELS[k], cfg))
+        def bdoc(d, cfg, k=k):
+            write_pkg(d + "/lib", "Lib", "T: int\n---\n# second document\n" + BAD_MODELS[k])
+            write_pkg(d + "/main", "Main", BASE, cfg, imports=["../lib"])
+        yield "import-2nd-document:" + k, bdoc
     for k in (["unknown-type", "yaml-syntax", "duplicate-field"] if quick else kinds):
         def b(d, cfg, k=k):
             write_pkg(d + "/lib", "Lib", "T: int\n" + BAD_MODELS[k])
@@ -156,6 +162,9 @@ def rule_catalogue_layer(ctx):
     from concurrent.futures import ThreadPoolExecutor
     jobs = [("def:" + k, c09.BASE + text + c09.USE) for k, text in c09.BAD_DEFS]
     jobs += [("type:" + k, c09.BASE + c09.POSITIONS["record-field"].replace("{T}", t) + c09.USE) for k, t in c09.BAD_TYPES]
+    # the same violations in a second / third YAML document of the model file (documents of one file are one namespace)
+    jobs += [("doc2:" + k, c09.BASE + c09.USE + "---\n" + text) for k, text in c09.BAD_DEFS[::3]]
+    jobs += [("doc3:" + k, c09.BASE + "---\n" + c09.USE + "---\n" + c09.POSITIONS["record-field"].replace("{T}", t)) for k, t in c09.BAD_TYPES[::4]]
 
     def one(ij):
         i, (name, model) = ij
